@@ -595,17 +595,23 @@ impl StakeKeeper {
                         });
                     match delegation {
                         Some(delegation) if delegation.amount.is_zero() => {
-                            STAKES.remove(&mut staking_storage, (&delegator, &validator));
-                            // keep the validator's set of stakers in step with the stakes
-                            if let Some(mut validator_info) =
-                                VALIDATOR_INFO.may_load(&staking_storage, &validator)?
-                            {
-                                validator_info.stakers.remove(&delegator);
-                                VALIDATOR_INFO.save(
-                                    &mut staking_storage,
-                                    &validator,
-                                    &validator_info,
-                                )?;
+                            // an entry that still holds accrued rewards stays: they remain withdrawable
+                            let has_rewards = STAKES
+                                .may_load(&staking_storage, (&delegator, &validator))?
+                                .map_or(false, |shares| !shares.rewards.is_zero());
+                            if !has_rewards {
+                                STAKES.remove(&mut staking_storage, (&delegator, &validator));
+                                // keep the validator's set of stakers in step with the stakes
+                                if let Some(mut validator_info) =
+                                    VALIDATOR_INFO.may_load(&staking_storage, &validator)?
+                                {
+                                    validator_info.stakers.remove(&delegator);
+                                    VALIDATOR_INFO.save(
+                                        &mut staking_storage,
+                                        &validator,
+                                        &validator_info,
+                                    )?;
+                                }
                             }
                         }
                         None => STAKES.remove(&mut staking_storage, (&delegator, &validator)),
